@@ -325,3 +325,53 @@ def traversals(loop):
                     elems.add(d.var)
         out.append(Traversal(loop, base, "0", e1, 1, elems, p, True))
     return out
+
+
+def carried_locals(loop, ignore=()):
+    """Locals whose value at the start of a round of `loop` may stem from an earlier round and is read before it is set again:
+    [(name, def node, use node)].  The loop's own counter and names in `ignore` are left out.  (Variables declared inside
+    the loop body start afresh every round and never qualify.)"""
+    from .dataflow import ReachingDefs
+    fn = loop.fn
+    cfg = fn.cfg
+    hb = cfg.loop_header(loop)
+    back = set((b, i) for (b, i, s) in cfg.back_edges() if s == hb)
+    sh = index_shape(loop) if loop.k in ("ForStmt", "WhileStmt") else None
+    skip = set(ignore) | ({sh.var} if sh is not None and sh.ok else set())
+    rd = ReachingDefs(fn)
+    cond = loop.child("cond")
+    entry = cfg.loop_body_entry(loop)
+    out = []
+    declared_inside = set()
+    for n in loop.walk():
+        if n.k == "DeclStmt":
+            for d in n.j.get("decls", []):
+                declared_inside.add(d.get("did"))
+    names = {}
+    for n in loop.walk():
+        if n.k == "DeclRefExpr" and n.j.get("dk") == "local" and n.j.get("did") not in declared_inside and n.j.get("name") not in skip:
+            names.setdefault(n.j["name"], []).append(n)
+    for v, refs in sorted(names.items()):
+        at = cond if cond is not None else refs[0]
+        ds_in = [d for d in rd.reaching(v, at) if d.node is not None and d.node.within(loop)]
+        if not ds_in:
+            continue
+        defblocks = set(cfg.block_of(d.node) for d in rd.defs if d.var == v and d.node is not None and d.node.within(loop))
+        reach = cfg.reachable(entry, avoid_blocks=defblocks - {entry}, avoid_edges=back)
+        for u in refs:
+            up = u.up()
+            if up is not None and up.k == "BinaryOperator" and up.j.get("op") == "=" and up.children[0].strip() is u:
+                continue        # a plain store, not a read
+            if up is not None and up.k == "UnaryOperator" and up.j.get("op") == "&":
+                continue
+            ub = cfg.block_of(u)
+            first = ub in reach or ub == entry
+            if ub in defblocks:
+                # read before the definition inside the same block?
+                dn = [d.node for d in rd.defs if d.var == v and d.node is not None and cfg.block_of(d.node) == ub]
+                preds_ok = ub == entry or any(p in reach for p in cfg.blocks[ub].preds if (p, cfg.blocks[p].succs.index(ub)) not in back)
+                first = preds_ok and all(cfg.index_of(u) < cfg.index_of(x) for x in dn)
+            if first and any(d in rd.reaching(v, u) for d in ds_in):
+                out.append((v, ds_in[0].node, u))
+                break
+    return out
